@@ -1,18 +1,48 @@
 import ALV.Common.Json
 import ALV.Model.C08
 import ALV.Spec.C08
+import ALV.Model.C08Hist
+import ALV.Spec.C08Hist
 namespace ALV.Driver.C08
 open ALV ALV.J ALV.C08
 
+/-- input items: `"xs"` (arbitrary JSON values, heterogeneous) or `"n"` (the integers 0..n-1) -/
+def getXs (j : Json) : Except String (List Json) := do
+  match optField j "xs" with
+  | some a => getArr a
+  | none =>
+    let n ← getNat (← field j "n")
+    pure ((List.range n).map natToJson)
+
+def getEnding (j : Json) : Except String Ending := do
+  match fieldD j "ending" (Json.str "stop") with
+  | Json.str "stop" => pure .stop
+  | Json.str "fail" => pure .fail
+  | e => throw s!"bad ending {e.compress}"
+
+def evJson (l : List (Nat × List Json)) : Json :=
+  arr (fun p : Nat × List Json => Json.arr [natToJson p.1, arr id p.2]) l
+
+def getEdit (j : Json) : Except String (Edit Json) := do
+  match ← getArr j with
+  | [Json.str "set", i, v] => pure (.set (← getNat i) v)
+  | [Json.str "rot", r] => pure (.rotate (← getInt r))
+  | [Json.str "rev"] => pure .reverse
+  | _ => throw s!"bad edit {j.compress}"
+
+def sizeHop (j : Json) : Except String (Nat × Nat) := do
+  let size ← getNat (← field j "size")
+  let hop ← getNat (← field j "hop")
+  if size = 0 ∨ hop = 0 then throw "size and hop must be positive"
+  pure (size, hop)
+
 /-- items are arbitrary JSON values (heterogeneous), the model is polymorphic -/
-def handle (entry : String) (j : Json) : Except String Json := do
+def handle1 (entry : String) (j : Json) : Except String Json := do
   match entry with
   | "blocks" =>
-    let size ← getNat (← field j "size")
-    let hop ← getNat (← field j "hop")
+    let (size, hop) ← sizeHop j
     let pad := fieldD j "pad" Json.null
-    let xs ← getArr (← field j "xs")
-    if size = 0 ∨ hop = 0 then throw "size and hop must be positive"
+    let xs ← getXs j
     let m := blocks size hop pad xs
     let reads := bloopReads size hop (⟨[], 0⟩ : BState Json) 0 xs
     let s := blocksSpec size hop pad xs
@@ -20,14 +50,80 @@ def handle (entry : String) (j : Json) : Except String Json := do
     pure <| Json.mkObj [
       ("model", arr (arr id) m), ("reads", nats reads),
       ("spec", arr (arr id) s), ("closed", arr (arr id) c)]
+  | "trace" =>
+    -- observing source that ends or fails after its items
+    let (size, hop) ← sizeHop j
+    let pad := fieldD j "pad" Json.null
+    let xs ← getXs j
+    let e ← getEnding j
+    -- "fast": spec only (the shrinker's candidates of large cases; model = spec is theorems
+    -- trace_fail / trace_stop, running the O(size*len) list model again for every candidate is not needed)
+    let fast ← getBool (fieldD j "fast" (Json.bool false))
+    let full := (List.range (nFull size hop xs.length)).map
+      fun k => (k * hop + size, (xs.drop (k * hop)).take size)
+    let closed := match e with
+      | .fail => full
+      | .stop => full ++ (tailBlock size hop pad xs).map fun b => (xs.length, b)
+    if fast then
+      pure <| Json.mkObj [("model", Json.null), ("raised", Json.null),
+        ("spec", evJson closed), ("spec_raised", Json.bool (e == .fail))]
+    else
+      let t := blocksTrace size hop pad xs e
+      pure <| Json.mkObj [
+        ("model", evJson t.events), ("raised", Json.bool t.raised),
+        ("spec", evJson closed), ("spec_raised", Json.bool (e == .fail))]
+  | "mut" =>
+    -- the caller edits the yielded containers in place
+    let (size, hop) ← sizeHop j
+    let pad := fieldD j "pad" Json.null
+    let xs ← getXs j
+    let eds ← (← getArr (← field j "edits")).mapM (fun e => do (← getArr e).mapM getEdit)
+    let ops : Nat → List (Edit Json) := fun k => eds.getD k []
+    let m := blocksMut size hop pad (fun k => applyEdits (ops k)) xs
+    let s := mutSpec size hop pad (fun k => editsLP (ops k)) 0 xs
+    pure <| Json.mkObj [("model", arr (arr id) m), ("spec", arr (arr id) s),
+      ("plain", arr (arr id) (blocksClosed size hop pad xs))]
+  | "live" =>
+    -- live source: item i = [i, vals[phase]] (or vals[phase]), phase = blocks handed out so far
+    let (size, hop) ← sizeHop j
+    let pad := fieldD j "pad" Json.null
+    let n ← getNat (← field j "n")
+    let vals ← getArr (← field j "vals")
+    let pair ← getBool (fieldD j "pair" (Json.bool true))
+    let item : Nat → Nat → Json := fun i ph =>
+      let v := vals.getD (min ph (vals.length - 1)) Json.null
+      if pair then Json.arr [natToJson i, v] else v
+    let m := blocksLive size hop pad item n
+    let seq := (List.range n).map fun i => item i (nFull size hop i)
+    pure <| Json.mkObj [("model", arr (arr id) m), ("spec", arr (arr id) (blocksClosed size hop pad seq)),
+      ("seq", arr id seq)]
   | "zero_pad" =>
     let l ← getNat (← field j "left")
     let r ← getNat (← field j "right")
     let z := fieldD j "zero" Json.null
-    let xs ← getArr (← field j "xs")
+    let xs ← getXs j
+    let e ← getEnding j
     let m := zeroPad l r z xs
+    let t := zeroPadTrace l r z xs e
+    let specItems := match e with
+      | .stop => List.replicate l z ++ xs ++ List.replicate r z
+      | .fail => List.replicate l z ++ xs
+    let specReads := List.replicate l 0 ++ (List.range xs.length).map (· + 1) ++
+      (match e with | .stop => List.replicate r xs.length | .fail => [])
     pure <| Json.mkObj [("model", arr id m),
-      ("spec", arr id (List.replicate l z ++ xs ++ List.replicate r z))]
+      ("spec", arr id (List.replicate l z ++ xs ++ List.replicate r z)),
+      ("trace", arr id (t.1.map Prod.snd)), ("trace_reads", nats (t.1.map Prod.fst)),
+      ("raised", Json.bool t.2),
+      ("spec_trace", arr id specItems), ("spec_reads", nats specReads)]
   | _ => throw s!"C08: unknown entry {entry}"
+
+def handle (entry : String) (j : Json) : Except String Json := do
+  match entry with
+  | "conc" =>
+    -- several generators alive at once: each is the model of its own case taken alone
+    let subs ← getArr (← field j "subs")
+    let outs ← subs.mapM fun s => do handle1 (← getStr (← field s "entry")) s
+    pure <| Json.mkObj [("subs", Json.arr outs)]
+  | _ => handle1 entry j
 
 end ALV.Driver.C08
